@@ -124,8 +124,10 @@ def run_check(pid, tier, seed, replay=None):
         if m["monitors"].get(name, 0) == 0:
             m["inconclusive"].append(f"monitor {name!r} was never reached")
     min_cases = getattr(mod, "MIN_NONTRIVIAL", {}).get(tier, 2)
-    if len(m["fps"]) < min_cases and not m["violations"]:
-        m["inconclusive"].append(f"only {len(m['fps'])} distinct non-trivial cases (< {min_cases})")
+    # checks that enumerate state graphs count distinct visited states instead of fingerprints
+    distinct = len(m["fps"]) + int(m["extra"].pop("distinct_extra", 0))
+    if distinct < min_cases and not m["violations"]:
+        m["inconclusive"].append(f"only {distinct} distinct non-trivial cases (< {min_cases})")
 
     # classify violations
     known, fresh = findings.classify(pid, m["violations"])
@@ -158,7 +160,7 @@ def run_check(pid, tier, seed, replay=None):
     wall = time.time() - t0
     cov = {
         "evaluations": m["evaluations"],
-        "distinct_nontrivial": len(m["fps"]),
+        "distinct_nontrivial": distinct,
         "rule": getattr(mod, "RULE", ""),
         "samples": m["samples"] or [{"note": "no sample recorded"}],
         "histogram": dict(sorted(m["hist"].items())),
@@ -187,7 +189,7 @@ def run_check(pid, tier, seed, replay=None):
     for ln in lines:
         print(ln)
     print(f"{pid} tier={tier} seed={seed}: evaluations={m['evaluations']} "
-          f"distinct_nontrivial={len(m['fps'])} violations={len(fresh)} "
+          f"distinct_nontrivial={distinct} violations={len(fresh)} "
           f"known={sum(c for (_, c, _) in known.values())} wall={wall:.1f}s")
     if fresh:
         return 1
